@@ -1406,7 +1406,7 @@ theorem mem_policiesSelecting {e : Engine} {k : KPeer} {d : Dir} {np : NetPol}
   cases k with
   | ip r => exact absurd h (List.not_mem_nil)
   | pod p nso =>
-    obtain ⟨h1, h2⟩ := List.mem_filter.mp h
+    obtain ⟨h1, h2⟩ := List.mem_filter.mp (Engine.mem_sortByName.mp h)
     exact ⟨h1, p, nso, rfl, h2⟩
 
 /-- Rung 1, one direction -/
@@ -2090,10 +2090,12 @@ theorem policyConns_repr (np : NetPol) (i : Bool) (hv : ∀ r ∈ Spec.npRules n
 /-- no policy selects a representative peer -/
 theorem policiesSelecting_repr (e : Engine) (rp : Pod) (nso : Option NsObj)
     (hrep : rp.isRepresentative = true) (d : Dir) : e.policiesSelecting (.pod rp nso) d = [] := by
-  unfold policiesSelecting
-  rw [List.filter_eq_nil_iff]
-  intro np _
-  simp [NetPol.selects, hrep]
+  have : e.netpols.filter (fun np => np.selects rp d) = [] := by
+    rw [List.filter_eq_nil_iff]
+    intro np _
+    simp [NetPol.selects, hrep]
+  rw [Engine.policiesSelecting_pod, this]
+  rfl
 
 /-- the rule belongs to a policy that selects the pod in the direction -/
 def PRule (e : Engine) (pod : Pod) (d : Dir) (np : NetPol) (r : NPRule) : Prop :=
@@ -2133,21 +2135,21 @@ theorem xgressConns_repr (e : Engine) (hv : NpValid e) (i : Bool) (rp : Pod) (ns
     (hprot : isProtected e pod i = true) :
     ∃ c, xgressConns e (xSrc i (.pod rp nso) (.pod pod nsw)) (xDst i (.pod rp nso) (.pod pod nsw)) i
         = .ok c ∧ EntrySpec e pod (.pod pod nsw) i rp.reprPodSel rp.reprNsSel c := by
-  have hpc : ∀ np ∈ e.netpols.filter (fun np => np.selects pod (dirOf i)),
+  have hpc : ∀ np ∈ Engine.sortByName (e.netpols.filter (fun np => np.selects pod (dirOf i))),
       policyConns np (xSrc i (.pod rp nso) (.pod pod nsw)) (xDst i (.pod rp nso) (.pod pod nsw)) i =
         .ok (pcOf i (.pod rp nso) (.pod pod nsw) np) ∧
       PolicySpec np i (.pod pod nsw) rp.reprPodSel rp.reprNsSel
         (pcOf i (.pod rp nso) (.pod pod nsw) np) :=
     fun np hnp => by
-      obtain ⟨c, hc, hspec⟩ := policyConns_repr np i (hv.rules (List.mem_filter.mp hnp).1 _) rp nso
+      obtain ⟨c, hc, hspec⟩ := policyConns_repr np i (hv.rules (List.mem_filter.mp (Engine.mem_sortByName.mp hnp)).1 _) rp nso
         hrp (.pod pod nsw) hpod rfl
       have : pcOf i (.pod rp nso) (.pod pod nsw) np = c := by simp [pcOf, hc]
       rw [this]
       exact ⟨hc, hspec⟩
   rw [xgressConns_eq, selfPeer_x]
   have hpols : e.policiesSelecting (.pod pod nsw) (dirOf i) =
-      e.netpols.filter (fun np => np.selects pod (dirOf i)) := rfl
-  rw [hpols]
+      Engine.sortByName (e.netpols.filter (fun np => np.selects pod (dirOf i))) := rfl
+  rw [hpols, Engine.sortByName_isEmpty]
   have hne : (e.netpols.filter (fun np => np.selects pod (dirOf i))).isEmpty = false := by
     obtain ⟨np, h1, h2⟩ := (isProtected_iff e pod i).mp hprot
     cases h : (e.netpols.filter (fun np => np.selects pod (dirOf i))).isEmpty
@@ -2158,7 +2160,7 @@ theorem xgressConns_repr (e : Engine) (hv : NpValid e) (i : Bool) (rp : Pod) (ns
   have hfold := foldlM_ok_eq_foldl
     (xFold (xSrc i (.pod rp nso) (.pod pod nsw)) (xDst i (.pod rp nso) (.pod pod nsw)) i)
     (fun acc np => acc.union (pcOf i (.pod rp nso) (.pod pod nsw) np))
-    (e.netpols.filter (fun np => np.selects pod (dirOf i)))
+    (Engine.sortByName (e.netpols.filter (fun np => np.selects pod (dirOf i))))
     (fun acc np hnp => by
       unfold xFold
       rw [(hpc np hnp).1]
@@ -2166,7 +2168,7 @@ theorem xgressConns_repr (e : Engine) (hv : NpValid e) (i : Bool) (rp : Pod) (ns
   rw [hfold]
   refine ⟨_, rfl, ?_⟩
   rw [← List.foldl_map]
-  have hW : ∀ c ∈ (e.netpols.filter (fun np => np.selects pod (dirOf i))).map
+  have hW : ∀ c ∈ (Engine.sortByName (e.netpols.filter (fun np => np.selects pod (dirOf i)))).map
       (pcOf i (.pod rp nso) (.pod pod nsw)), c.WFE := by
     intro c hc
     obtain ⟨np, hnp, rfl⟩ := List.mem_map.mp hc
@@ -2180,24 +2182,24 @@ theorem xgressConns_repr (e : Engine) (hv : NpValid e) (i : Bool) (rp : Pod) (ns
       · exact absurd h (ConnSet.den_mk_none pr x)
       · obtain ⟨np, hnp, rfl⟩ := List.mem_map.mp hc
         obtain ⟨r, hr, h1, h2⟩ := ((hpc np hnp).2.den pr x).mp h
-        obtain ⟨hnp1, hnp2⟩ := List.mem_filter.mp hnp
+        obtain ⟨hnp1, hnp2⟩ := List.mem_filter.mp (Engine.mem_sortByName.mp hnp)
         exact ⟨np, r, ⟨hnp1, hnp2, hr⟩, h1, h2⟩
     · rintro ⟨np, r, ⟨hnp1, hnp2, hr⟩, h1, h2⟩
-      have hnp : np ∈ e.netpols.filter (fun np => np.selects pod (dirOf i)) :=
-        List.mem_filter.mpr ⟨hnp1, hnp2⟩
+      have hnp : np ∈ Engine.sortByName (e.netpols.filter (fun np => np.selects pod (dirOf i))) :=
+        Engine.mem_sortByName.mpr (List.mem_filter.mpr ⟨hnp1, hnp2⟩)
       exact Or.inr ⟨_, List.mem_map.mpr ⟨np, hnp, rfl⟩,
         ((hpc np hnp).2.den pr x).mpr ⟨r, hr, h1, h2⟩⟩
   · rcases u3 pr n hn with h | ⟨c, hc, h⟩
     · rw [ConnSet.names_mk'] at h; exact absurd h (List.not_mem_nil)
     · obtain ⟨np, hnp, rfl⟩ := List.mem_map.mp hc
       obtain ⟨hi, r, hr, h1, h2⟩ := (hpc np hnp).2.namesSub pr n h
-      obtain ⟨hnp1, hnp2⟩ := List.mem_filter.mp hnp
+      obtain ⟨hnp1, hnp2⟩ := List.mem_filter.mp (Engine.mem_sortByName.mp hnp)
       exact ⟨hi, np, r, ⟨hnp1, hnp2, hr⟩, h1, h2⟩
   · obtain ⟨np, r, ⟨hnp1, hnp2, hr⟩, h1, h2⟩ := hn
-    have hnp : np ∈ e.netpols.filter (fun np => np.selects pod (dirOf i)) :=
-      List.mem_filter.mpr ⟨hnp1, hnp2⟩
+    have hnp : np ∈ Engine.sortByName (e.netpols.filter (fun np => np.selects pod (dirOf i))) :=
+      Engine.mem_sortByName.mpr (List.mem_filter.mpr ⟨hnp1, hnp2⟩)
     have hmem : pcOf i (.pod rp nso) (.pod pod nsw) np ∈
-        (e.netpols.filter (fun np => np.selects pod (dirOf i))).map
+        (Engine.sortByName (e.netpols.filter (fun np => np.selects pod (dirOf i)))).map
           (pcOf i (.pod rp nso) (.pod pod nsw)) := List.mem_map.mpr ⟨np, hnp, rfl⟩
     rcases (hpc np hnp).2.namesSup hi pr n ⟨r, hr, h1, h2⟩ with h | h
     · exact u4 pr n (Or.inr ⟨_, hmem, h⟩)
